@@ -515,7 +515,7 @@ func violationLine(prop, path string, o *Obligation, fc *FnCtx, verif string) st
 
 func writeReplay(dir, prop string, o *Obligation, fc *FnCtx, note string) string {
 	os.MkdirAll(dir, 0o755)
-	base := sanitize(shortKey(o.Name()))
+	base := sanitize(shortKey(o.Fn) + "_" + o.Kind + "_" + o.Label)
 	if len(base) > 150 {
 		base = fmt.Sprintf("%s_%x", base[:120], hashStr(o.Name()))
 	}
